@@ -128,6 +128,8 @@ _SCHEMA = None
 
 def write_evidence(pid, ev):
     global _SCHEMA
+    if os.environ.get("VERIF_NO_EVIDENCE"):
+        return  # self-test runs against scratch copies must not overwrite evidence
     os.makedirs(EVIDENCE_DIR, exist_ok=True)
     try:
         import jsonschema
